@@ -12,6 +12,7 @@ from __future__ import annotations
 import ast
 
 from ..astutil import dotted, src, walk_local, local_assignments, calls, op_arms, if_chain, op_test
+from ..inline import Specialised, callable_body, call_sites
 from ..report import AnalysisError
 
 SENSE_OF = {"__le__": "<=", "__ge__": ">=", "eq": "=="}
@@ -280,42 +281,37 @@ def check(prog, rep):
     if not bsc:
         raise AnalysisError("no function builds SciPy constraint records (subject vanished)")
     want = {">=": ("ineq", 0, 0), "<=": ("ineq", 1, 1), "==": ("eq", 0, 0)}
+    senses_seen = set()
+    n_rec = 0
     for fi in bsc:
-        assigns = local_assignments(fi.node)
-        dicts = [n for n in walk_local(fi.node, include_self=False) if isinstance(n, ast.Dict) and {"type", "fun"} <= {k.value for k in n.keys if isinstance(k, ast.Constant)}]
-        senses_seen = set()
-        for d in dicts:
-            kv = {k.value: v for k, v in zip(d.keys, d.values) if isinstance(k, ast.Constant)}
-            # which sense arm?
-            sense = _sense_of_arm(d)
-            if sense is None:
-                rep.undecided(f"{fi.name}: cannot determine the sense arm of the record at line {d.lineno}")
-                continue
+        for rec in _records(prog, fi, rep):
+            n_rec += 1
+            sense, typ, fexpr, jexpr, fsrc, jsrc, loc, where = rec
             senses_seen.add(sense)
-            typ = kv["type"].value if isinstance(kv["type"], ast.Constant) else None
-            fsign = neg_count(kv["fun"].body if isinstance(kv["fun"], ast.Lambda) else kv["fun"]) % 2
-            jsign = neg_count(kv["jac"].body if isinstance(kv.get("jac"), ast.Lambda) else kv.get("jac")) % 2 if "jac" in kv else None
+            fsign = neg_count(fexpr) % 2
+            jsign = neg_count(jexpr) % 2 if jexpr is not None else None
             w = want[sense]
             ok = (typ, fsign) == w[:2]
-            rep.ob("R10.4", f"{fi.name}:record[{sense}]", ok,
+            rep.ob("R10.4", f"{where}:record[{sense}]", ok,
                    f"{sense} -> type {typ!r}, fun = {'-' if fsign else '+'}(lhs-rhs): non-negative exactly when the relation holds" if ok else
                    f"{sense} is encoded as type {typ!r} with fun = {'-' if fsign else '+'}(lhs-rhs); SciPy reads ineq as fun(x) >= 0, so the solver would enforce a different relation",
-                   loc=f"{fi.module.rel}:{d.lineno}", detail="type+fun-sign")
+                   loc=loc, detail="type+fun-sign")
             if jsign is not None:
                 okj = jsign == fsign
-                rep.ob("R10.4", f"{fi.name}:record[{sense}]", okj,
+                rep.ob("R10.4", f"{where}:record[{sense}]", okj,
                        "jac carries the same sign as fun" if okj else f"jac has sign {'-' if jsign else '+'} while fun has sign {'-' if fsign else '+'}: the Jacobian handed to SciPy is not the derivative of the function handed over",
-                       loc=f"{fi.module.rel}:{d.lineno}", detail="jac-sign")
-            # fun and jac from the same expression
-            fsrc = _compiled_from(kv["fun"], assigns, {"compile_expression"})
-            jsrc = _compiled_from(kv.get("jac"), assigns, {"compile_jacobian"}) if "jac" in kv else None
-            if fsrc is None or ("jac" in kv and jsrc is None):
-                rep.undecided(f"{fi.name}: cannot trace fun/jac of record [{sense}] to compile_expression/compile_jacobian")
+                       loc=loc, detail="jac-sign")
+            if fsrc is None or (jexpr is not None and jsrc is None):
+                rep.undecided(f"{where}: cannot trace fun/jac of record [{sense}] to compile_expression/compile_jacobian")
                 continue
             same = jsrc is None or fsrc == jsrc
-            rep.ob("R10.4", f"{fi.name}:record[{sense}]", same, f"fun and jac are compiled from the same expression ({fsrc})" if same else f"fun is compiled from {fsrc} but jac from {jsrc}", loc=f"{fi.module.rel}:{d.lineno}", detail="same-expression")
-        missing = {"<=", ">=", "=="} - senses_seen
-        rep.ob("R10.4", f"{fi.name}", not missing, "every sense has a record arm" if not missing else f"no record is built for sense(s) {sorted(missing)}: such constraints are silently dropped", loc=fi.loc, detail="all-senses")
+            rep.ob("R10.4", f"{where}:record[{sense}]", same, f"fun and jac are compiled from the same expression ({fsrc})" if same else f"fun is compiled from {fsrc} but jac from {jsrc}", loc=loc, detail="same-expression")
+    missing = {"<=", ">=", "=="} - senses_seen
+    builder = bsc[0]
+    if missing and rep.has_undecided():
+        pass    # some record could not be attributed to a sense: the verdict on coverage is deferred with it
+    else:
+        rep.ob("R10.4", f"{builder.name}" if len(bsc) == 1 else "scipy_solver", not missing, "every sense has a record arm" if not missing else f"no record is built for sense(s) {sorted(missing)}: such constraints are silently dropped", loc=builder.loc, detail="all-senses")
     bad, total = late_binding_sites(prog)
     rep.saw("closures created in loops", total)
     for fi, n, fv in bad:
@@ -368,16 +364,55 @@ def _sense_of_arm(node):
     return next(iter(rest)) if len(rest) == 1 else None
 
 
-def _compiled_from(fn, assigns, compilers):
-    """Source text of the expression argument that the callable inside a record lambda was compiled from."""
-    if fn is None:
-        return None
-    inner = [c for c in ast.walk(fn) if isinstance(c, ast.Call) and isinstance(c.func, ast.Name)]
-    defaults = {}
-    if isinstance(fn, ast.Lambda):
-        defaults = dict(zip([a.arg for a in fn.args.args][::-1], fn.args.defaults[::-1]))
+def _records(prog, fi, rep):
+    """(sense, type, fun result expr, jac result expr | None, fun source, jac source, loc, where) for every SciPy
+    constraint record built in ``fi``: dict literals sitting in a sense arm, or -- when ``fi`` is a record factory
+    whose dict does not sit in a sense arm -- one record per call site, specialised on the call's constant arguments."""
+    dicts = [n for n in walk_local(fi.node, include_self=False) if isinstance(n, ast.Dict) and {"type", "fun"} <= {k.value for k in n.keys if isinstance(k, ast.Constant)}]
+    for d in dicts:
+        kv = {k.value: v for k, v in zip(d.keys, d.values) if isinstance(k, ast.Constant)}
+        sense = _sense_of_arm(d)
+        if sense is not None:
+            contexts = [(None, fi, sense, d)]
+        else:
+            sites = call_sites(prog, fi, "optyx.solvers")
+            contexts = []
+            for caller, call in sites:
+                s2 = _sense_of_arm(call)
+                spec = Specialised(fi, call)
+                if not any(x is d for x in spec.walk()):
+                    continue        # this dict is pruned away for the constant arguments of this call
+                if s2 is None:
+                    rep.undecided(f"{caller.name}: cannot determine the sense arm of the record built at line {call.lineno}")
+                    continue
+                contexts.append((spec, caller, s2, call))
+            if not sites:
+                rep.undecided(f"{fi.name}: cannot determine the sense arm of the record at line {d.lineno}")
+        for spec, owner, sense, at in contexts:
+            typ = kv["type"].value if isinstance(kv["type"], ast.Constant) else (spec.const(kv["type"]) if spec is not None else None)
+            if not isinstance(typ, str):
+                rep.undecided(f"{fi.name}: record type `{src(kv['type'])}` at line {d.lineno} is not a literal at this site")
+                continue
+            fb = callable_body(kv["fun"], spec)
+            jb = callable_body(kv["jac"], spec) if "jac" in kv else None
+            if fb is None or ("jac" in kv and jb is None):
+                rep.undecided(f"{fi.name}: fun/jac of the record at line {d.lineno} is not a lambda or a single-return local function")
+                continue
+            assigns = local_assignments(owner.node)
+            fsrc = _compiled_from(fb[0], fb[2], assigns, {"compile_expression"}, spec)
+            jsrc = _compiled_from(jb[0], jb[2], assigns, {"compile_jacobian"}, spec) if jb is not None else None
+            where = fi.name if spec is None else f"{owner.name}->{fi.name}"
+            yield sense, typ, fb[0], (jb[0] if jb is not None else None), fsrc, jsrc, f"{owner.module.rel}:{at.lineno}", where
+
+
+def _compiled_from(expr, defaults, assigns, compilers, spec=None):
+    """Source text of the expression argument that the callable called inside a record callable was compiled from
+    (through default-argument bindings and, for a record factory, through the call's argument binding)."""
+    inner = [c for c in ast.walk(expr) if isinstance(c, ast.Call) and isinstance(c.func, ast.Name)]
     for c in inner:
         origin = defaults.get(c.func.id)
+        if origin is None and spec is not None:
+            origin = spec.arg(c.func)
         name = origin.id if isinstance(origin, ast.Name) else c.func.id
         for v in assigns.get(name, []):
             if isinstance(v, ast.Call) and dotted(v.func) in compilers and v.args:
